@@ -346,6 +346,7 @@ func runC03(c *report.Ctx) {
 	// ---- per-input previous output; the unlocked cache is self-sufficient -------------------------------------
 	rulePrevOutputPerInput(c)
 	ruleBranchCacheComplete(c)
+	ruleEngineFlagsPerInput(c)
 }
 
 // passedExecute: block b is dominated by the block of the Execute call (the check follows the call).
